@@ -247,6 +247,10 @@ func (s *Scanner) Next() (lexeme.LexEvent, bool) {
 		case lexeme.InlineAnnotationTextBegin:
 			return s.processingFoundLexeme(lexeme.InlineAnnotationTextEnd), true
 		case lexeme.TypesShortcutBegin:
+			if s.unfinishedLiteral {
+				// `@` or `@a |` - a type name is still expected.
+				break
+			}
 			s.found(lexeme.MixedValueEnd)
 			return s.processingFoundLexeme(lexeme.TypesShortcutEnd), true
 		}
@@ -1159,6 +1163,7 @@ func stateNul(s *Scanner, c byte) state {
 
 func stateTypesShortcutBeginOfSchemaName(s *Scanner, c byte) state {
 	if bytes.IsValidUserTypeNameByte(c) {
+		s.unfinishedLiteral = false
 		s.step = stateTypesShortcutSchemaName
 		return scanContinue
 	}
@@ -1186,6 +1191,7 @@ func stateTypesShortcutSchemaName(s *Scanner, c byte) state {
 		s.step = stateTypesShortcutBeforePipe
 
 	case c == '|':
+		s.unfinishedLiteral = true
 		s.step = stateTypesShortcutAfterPipe
 
 	default:
@@ -1212,6 +1218,7 @@ func stateTypesShortcutBeforePipe(s *Scanner, c byte) state {
 		s.step = stateTypesShortcutBeforePipe
 
 	case c == '|':
+		s.unfinishedLiteral = true
 		s.step = stateTypesShortcutAfterPipe
 
 	default:
